@@ -96,6 +96,7 @@ def witnesses():
         "C01-ordered-delimiter-merge": _differs("1. a\n\n1) b\n", width=88, semantic=False),
         "C01-closing-tag-unindented": _differs("- {% f %}\n  - i1\n  {% /f %}\n", width=88, semantic=False),
         "C01-hard-break-after-delimiter-run": _differs("a *  \nb 2*3*4\n", width=88, semantic=False),
+        "C01-marko-lax-table-delimiter": _differs("a it.  | -x +\nEnds.\n", width=8, semantic=False),
         "C01-link-definition-inside-list-item": _differs("- [a]: /u\n\n- b\n", width=88, semantic=False)
         and P.fmt(P.fmt("- [a]: /u\n\n- b\n", width=88, semantic=False), width=88, semantic=False) != P.fmt("- [a]: /u\n\n- b\n", width=88, semantic=False),
     }
